@@ -16,7 +16,9 @@ RULE = (
     "accepted or rejected by its field, plus a row with too few items) x key sets {k1; k1,k2; k2,k1} x both "
     "declaration orders of IsUnique and DistinctCount x the three error modes, the comparison 'k1 <op> n' rotating "
     "through all 6 operators x n in 0..4 with n written plainly or as a sum, product, difference or in brackets; "
-    "the same sweep over 8 row symbols whose key values may be empty (both key fields allowed to be empty). Hypothesis: CIDs with 2-3 Text/Choice/Integer fields, an IsUnique check "
+    "the same sweep over 8 row symbols whose key values may be empty (both key fields allowed to be empty); every "
+    "sequence of 0-4 / 0-5 rows over k1 in {a,b} x k2 in {x,y} x v accepted or rejected under two IsUnique checks (k1; "
+    "k2) in both orders, every third time with a DistinctCount between them. Hypothesis: CIDs with 2-3 Text/Choice/Integer fields, an IsUnique check "
     "over 1-3 key fields and 0-2 DistinctCount checks in either order, tables of up to 10 rows over pools of 2-3 "
     "values per key field, rows rejected for other reasons interleaved, three modes. Oracle: dictionary model "
     "(vlib/model_validio): a row is rejected by IsUnique iff an earlier row that reached the check and was not "
@@ -26,12 +28,15 @@ RULE = (
     "count within 1 of the threshold; enumerated sequences are distinct by construction."
 )
 ASSUMPTIONS = [
-    "at most one IsUnique check per CID, so 'accepted' and 'registered' coincide (DistinctCount never vetoes a row)",
+    "the generated CIDs have at most one IsUnique check, so 'accepted' and 'registered' coincide there (DistinctCount "
+    "never vetoes a row); the family 'several-unique' declares two and reads the statement literally: only an ACCEPTED "
+    "earlier row makes a later one a duplicate (see the open finding C05|registered-by-rejected-row)",
     "key cells are texts for which text equality and value equality coincide",
 ]
 EXHAUSTIVE = True
 EXHAUSTIVE_SCOPE = ("all row sequences up to length 4 (quick) / 5 (thorough) over 9 row symbols, and over 8 row symbols with "
-                    "empty key values, x 3 key sets x 2 orders x 3 modes")
+                    "empty key values, x 3 key sets x 2 orders x 3 modes; all row sequences up to length 4 / 5 over 8 row symbols under "
+                    "two IsUnique checks in both orders")
 
 _OPS = ("<", "<=", "==", "!=", ">=", ">")
 _SYMBOLS = [[k1, k2, v] for k1 in "aA" for k2 in "ab" for v in ("x", "z")] + [["a"]]
@@ -230,8 +235,92 @@ def _join_collisions(ctx):
     ctx.merge(sub)
 
 
+# -- several uniqueness checks in one CID ------------------------------------------------------------------------
+_TWO_KEY_SYMBOLS = [[k1, k2, v] for k1 in "ab" for k2 in "xy" for v in ("x", "z")]
+
+
+def _several_unique_spec(order, with_count):
+    fmt = gen_fields.format_spec("delimited")
+    text = lambda name: {"name": name, "empty": False, "length": "", "length_items": None, "type": "Text",  # noqa: E731
+                         "rule": "", "model": {}}
+    fields = [text("k1"), text("k2"),
+              {"name": "v", "empty": False, "length": "", "length_items": None, "type": "Choice", "rule": "x, y",
+               "model": {"choices": ["x", "y"]}}]
+    checks = [{"desc": "%s is unique" % name, "type": "IsUnique", "rule": name, "keys": [name]} for name in order]
+    if with_count:
+        checks.insert(1, {"desc": "few k2", "type": "DistinctCount", "rule": "k2 <= 1", "field": "k2", "op": "<=", "n": 1})
+    return {"fmt": fmt, "fields": fields, "checks": checks}
+
+
+def _registered_by_rejected_row(expected, items):
+    """Is the first difference between the model's outcomes and the items of a 'yield' pass a row the model accepts and
+    cutplace rejects as duplicate OF A ROW THAT WAS ITSELF REJECTED by a check?  (cutplace registers the key of a row
+    with every uniqueness check the row passes, also when a check declared later rejects the row.)"""
+    wanted = [o for o in expected["outcomes"] if o is not None]
+    if len(wanted) != len(items):
+        return False
+    for index, (outcome, item) in enumerate(zip(wanted, items)):
+        accepted = not isinstance(item, Exception)
+        if outcome[0] == "row" and accepted:
+            continue
+        if outcome[0] == "error" and not accepted and type(item).__name__ == outcome[1]:
+            if outcome[1] != "CheckError" or item.see_also_location is None or item.see_also_location.line == outcome[5]:
+                continue
+        # the first difference: cutplace reports a duplicate (where the model accepts the row, or names another first
+        # occurrence) and the row it refers to is one the model has rejected by a check
+        if isinstance(item, errors.CheckError) and item.see_also_location is not None:
+            first = item.see_also_location.line
+            return first < index and wanted[first][0] == "error" and wanted[first][1] == "CheckError"
+        return False
+    return False
+
+
+def _several_unique_shard(args):
+    from vlib.runner import Sub
+
+    index, count, max_len = args
+    sub = Sub("several-unique")
+    evals = nontrivial = number = 0
+    classes = {}
+    for length in range(0, max_len + 1):
+        for symbols in itertools.product(range(len(_TWO_KEY_SYMBOLS)), repeat=length):
+            number += 1
+            if number % count != index:
+                continue
+            rows = [list(_TWO_KEY_SYMBOLS[s]) for s in symbols]
+            text = gen_tables.delimited_text(rows)
+            for order in (("k1", "k2"), ("k2", "k1")):
+                spec = _several_unique_spec(order, number % 3 == 0)
+                case = {"spec": spec, "rows": rows, "via": "stream", "family": "several-unique"}
+                expected = model_validio.predict(spec, rows)
+                cid = c04.load(spec)
+                items, ended = c04.read_all(cid, io.StringIO(text, newline=""), "yield")
+                evals += 1
+                if _registered_by_rejected_row(expected, items):
+                    # one root cause, one signature; the rest of this table is decided by the stray key
+                    sub.fail("C05|registered-by-rejected-row", case,
+                             "a row is rejected as duplicate of a row that was itself rejected (by a uniqueness check "
+                             "declared later): rows %r, checks %r, items %r" % (
+                                 rows, [c["rule"] for c in spec["checks"]], [str(i) for i in items]))
+                    classes["several-unique:registered-by-rejected-row"] = classes.get(
+                        "several-unique:registered-by-rejected-row", 0) + 1
+                    continue
+                before = sub.evaluations
+                judge(sub, case, spec, rows, rows, lambda mode: io.StringIO(text, newline=""), "<io>", "several-unique")
+                evals += sub.evaluations - before
+                sub.evaluations = before
+                if any(o and o[0] == "error" and o[1] == "CheckError" for o in expected["outcomes"]):
+                    nontrivial += 1
+            if number % 701 == 0 and len(sub.samples) < 2:
+                sub.samples.append({"rows": rows, "checks": "IsUnique k1; IsUnique k2 (both orders)"})
+    sub.bulk(evals, nontrivial, classes)
+    return sub
+
+
 def run(ctx):
     _join_collisions(ctx)
+    shards_u = ctx.workers
+    ctx.par(_several_unique_shard, [(i, shards_u, ctx.n(4, 5)) for i in range(shards_u)])
     max_len = ctx.n(4, 5)
     shards = ctx.workers * 2
     ctx.par(_sweep_shard, [(i, shards, max_len) for i in range(shards)])
@@ -241,4 +330,15 @@ def run(ctx):
 
 
 def replay(sub, case):
+    if case.get("family") == "several-unique":
+        spec, rows = case["spec"], case["rows"]
+        expected = model_validio.predict(spec, rows)
+        text = gen_tables.delimited_text(rows)
+        items, _ = c04.read_all(c04.load(spec), io.StringIO(text, newline=""), "yield")
+        if _registered_by_rejected_row(expected, items):
+            sub.fail("C05|registered-by-rejected-row", case, "a row is rejected as duplicate of a row that was itself "
+                     "rejected: rows %r, items %r" % (rows, [str(i) for i in items]))
+        else:
+            judge(sub, case, spec, rows, rows, lambda mode: io.StringIO(text, newline=""), "<io>", "several-unique")
+        return
     check_case(sub, case)
